@@ -1172,7 +1172,9 @@ class Client:
 
         # It is important for all keys to be listed in their original order.
         cmd = name
-        if expire is not None:
+        if name in (b"gat", b"gats"):
+            # the exptime is part of these commands: a missing one (None) is a
+            # bad argument like any other non-integer, not "send no exptime"
             expire_bytes = self._check_integer(expire, "expire")
             cmd += b" " + expire_bytes
 
